@@ -765,6 +765,12 @@ func (e *concExec) Body() {
 		tbl string
 	}
 	cands := make([][]cand, n)
+	lateDel := false
+	for _, k := range e.script {
+		if strings.HasPrefix(all[k].name, "delAgg") {
+			lateDel = true
+		}
+	}
 	for d := 0; d < n; d++ {
 		base := cloneTable(model)
 		var stages []ref.Table
@@ -776,10 +782,18 @@ func (e *concExec) Body() {
 			if e.opRet[i] < e.dCall[d] {
 				all[k].model(&base)
 				base = cloneTable(base)
-			} else if e.opCall[i] < e.dRet[d] {
+			} else if e.opCall[i] < e.dRet[d] || lateDel {
+				// an aggregator is observed through its numIn counter, which moves when the point is
+				// processed, not when it is handed over: a delete that starts after the dispatch has
+				// returned can still make the aggregator drop the point from its inbox on shutdown, so
+				// the deleted aggregator counts as in flux for every dispatch that did not precede it
+				// (and so do the operations of the script before that delete, to keep them in order)
 				if !started {
 					stages = append(stages, cloneTable(base))
 					started = true
+				}
+				if all[k].wantErr(&base) {
+					continue
 				}
 				all[k].model(&base)
 				base = cloneTable(base)
